@@ -59,6 +59,7 @@ def run(res):
             pool_ks[i] = KS(pool_ks[i].succ, [[ren.get(l, l) for l in ls] for ls in pool_ks[i].labs])
         pool_k = [k.to_impl() for k in pool_ks]
         version = [0] * len(pool_ks)
+        aliased = [False] * len(pool_ks)
         F_pool = [[set(), set()][:rng.choice([0, 1, 2])] for _ in range(3)]     # live lists, edited in place between calls
         forms = []
         for _ in range(4):
@@ -78,6 +79,8 @@ def run(res):
                 n = pool_ks[ki].n
                 st_, ap = rng.randrange(n), rng.choice(['p', 'q', 'r', 'fair'])
                 how = rng.choice(['label_add', 'label_discard', 'replace_labelling'])
+                if aliased[ki]:
+                    how = 'replace_labelling'      # in-place edits of shared / frozen label sets would edit several states
                 labs = [list(ls) for ls in pool_ks[ki].labs]
                 if how == 'label_add':
                     pool_k[ki].labels(st_).add(ap)
@@ -87,7 +90,17 @@ def run(res):
                     labs[st_] = [l for l in labs[st_] if l != ap]
                 else:
                     labs = [[l for l in ('p', 'q', 'r') if rng.random() < 0.4] for _ in range(n)]
-                    pool_k[ki].replace_labelling_function({s_: set(ls) for s_, ls in enumerate(labs)})
+                    if rng.random() < 0.5:
+                        pool_k[ki].replace_labelling_function({s_: set(ls) for s_, ls in enumerate(labs)})
+                        aliased[ki] = False
+                    else:
+                        # the caller's dict uses ONE object for equal label sets, some of them frozensets
+                        shared = {}
+                        mk_ = frozenset if rng.random() < 0.5 else set
+                        pool_k[ki].replace_labelling_function(
+                            {s_: shared.setdefault(frozenset(ls), mk_(ls)) for s_, ls in enumerate(labs)})
+                        aliased[ki] = True
+                        edits['replace_labelling_with_shared_or_frozen_sets'] = edits.get('replace_labelling_with_shared_or_frozen_sets', 0) + 1
                 pool_ks[ki] = KS(pool_ks[ki].succ, labs)
                 version[ki] += 1
                 edits[how] += 1
@@ -129,6 +142,7 @@ def run(res):
                 which = [i for i in range(len(pool_k)) if after_k[i] != before_k[i]]
                 violations.append(('a modelcheck call modified Kripke structure(s) #%s of the pool (called on #%d)' % (which, ki), ctx))
                 pool_k = [k.to_impl() for k in pool_ks]   # restore and go on
+                aliased = [False] * len(pool_ks)
             if after_f != before_f:
                 violations.append(('a modelcheck call modified a formula object', ctx))
             # purity as "a function of the VALUES of its arguments": the same call on freshly built equal arguments
